@@ -16,6 +16,7 @@ var checks = map[string]struct {
 	"C26": {"exploration", c26},
 	"C48": {"exploration", c48},
 	"C07": {"exploration", c07},
+	"C08": {"fault_enumeration", c08},
 }
 
 func main() {
